@@ -84,7 +84,8 @@ WORKLOAD = ("pairing histories against an SMP initiator model with reference cry
             "{request(legacy), request(LESC), confirm, random, public key, DHKey check, unknown opcode} x {valid, wrong length, invalid "
             "field, wrong value}, followed by a valid Pairing Request (idle probe) and a complete pairing; (b) numeric comparison "
             "timing: user answer {sync yes/no, async yes/no before / between / after the central's DHKey check, never} x right/wrong "
-            "DHKey check; (c) random walks over PDUs, output polls, encryption flips, reconnects (3 peers), user answers, late "
+            "DHKey check, and two attempts on one connection (first aborted after a verified DHKey check with the question open, second "
+            "answered yes before the central's DHKey check); (c) random walks over PDUs, output polls, encryption flips, reconnects (3 peers), user answers, late "
             "answers; per history random request parameters, TK choice, addresses, keys (3 key pairs per side). ")
 
 ASSUME_COMMON = [
@@ -123,7 +124,7 @@ SPECS = [
                             "numeric_comparison:async_yes_between_dhkey_and_poll:wrong_dhkey_check",
                             "numeric_comparison:async_yes_after_dhkey:right_dhkey_check", "numeric_comparison:async_yes_after_dhkey:wrong_dhkey_check",
                             "numeric_comparison:async_no_after_dhkey:right_dhkey_check", "numeric_comparison:never:right_dhkey_check",
-                            "numeric_comparison:sync_no:right_dhkey_check"],
+                            "numeric_comparison:sync_no:right_dhkey_check", "numeric_comparison:second_attempt_after_aborted_first"],
                 "counters": {"eb_verified": 200, "sconfirm_verified": 200, "peripheral_commitment_verified": 200, "reference_ecdh": 50}},
          assumptions=ASSUME_COMMON + [
              "LESC order as in the statement (request, public key, random, DHKey check): a LESC passkey-entry commitment (Pairing "
@@ -148,7 +149,7 @@ SPECS = [
          assumptions=ASSUME_COMMON + [
              "after a completed pairing followed by a refused PDU or a late user answer the peripheral may keep or drop the key (if "
              "offered it must still be the right one)",
-             "exchanges in which a C32 violation was flagged (e.g. Eb before Ea) are not judged for C33 until pairing is reset",
+             "exchanges in which a C32 violation was flagged are not judged for C33 until pairing is reset, except: when the peripheral sent its final message (Srand / Eb) without being entitled to by the central's confirm / DHKey check, find_key(0,0) must still offer nothing",
              "LL_ENC_REQ path of link_layer is covered by family C (C28), not here"],
          design_ref="4/C33", technique="completion flag + reference s1/f5 key monitor, find_key probed after every step"),
     Spec("C34", "exploration",
@@ -180,7 +181,7 @@ SPECS = [
          assumptions=ASSUME_COMMON + [
              "LESC passkey entry and LESC OOB with non-zero ra/rb never complete against Bluetoe (not implemented), so the "
              "'authenticated after completed passkey entry / OOB' direction is only exercised for legacy pairing",
-             "exchanges in which a C32 violation was flagged are not judged"],
+             "exchanges in which a C32 violation was flagged are not judged, except: when the peripheral sent its final message (Srand / Eb) without being entitled to by the central's confirm / DHKey check, no pairing completed and the status must stay no_key"],
          design_ref="4/C35", technique="initiator-side classification of the driven exchange vs local_device_pairing_status()"),
     Spec("C36", "exploration",
          rule="complete enumeration per instantiation: remote IO capability 0..4 x remote OOB flag x local OOB data present x AuthReq "
